@@ -65,3 +65,14 @@ pub fn ok_char_utf8(c: char, out: &mut Vec<u8>) {
     let mut buf = [0u8; 4];
     out.extend_from_slice(c.encode_utf8(&mut buf).as_bytes());
 }
+
+/// the end of the content is computed from a character count and used as a byte offset
+pub fn rev_ctl_count_as_offset(input: &str, quotes: usize) -> Option<&str> {
+    let end = input.chars().count().checked_sub(quotes)?;
+    input.get(quotes..end)
+}
+
+pub fn rev_ok_len_as_offset(input: &str, quotes: usize) -> Option<&str> {
+    let end = input.len().checked_sub(quotes)?;
+    input.get(quotes..end)
+}
